@@ -236,7 +236,7 @@ def rule_state(ctx: Ctx):
                   f"{len(tries)} try statements in _activate")
 
 
-def rule_nosticky(ctx: Ctx):
+def rule_nosticky(ctx: Ctx, rule: str = "C04.nosticky"):
     rep, k = ctx.rep, ctx.k
     for eng in k.engines:
         for nm in ("processing_loop", "_trigger", "_activate"):
@@ -248,10 +248,10 @@ def rule_nosticky(ctx: Ctx):
                     if isinstance(e.term, ast.Attribute) and isinstance(b, ast.Name) and b.id == "self":
                         written.add(e.term.attr)
                         if e.term.attr != k.queue_attr:
-                            rep.violation("C04.nosticky", e.loc(),
+                            rep.violation(rule, e.loc(),
                                           f"{eng.name}.{nm} keeps processing state in `self.{e.term.attr}` (can stay set after a failure)",
                                           f.key, norm_stmt(e.node))
-            rep.ok("C04.nosticky", f.loc(), f"{eng.name}.{nm} writes no engine attribute besides the queue", written=sorted(written))
+            rep.ok(rule, f.loc(), f"{eng.name}.{nm} writes no engine attribute besides the queue", written=sorted(written))
 
 
 RULES = [rule_release, rule_clear, rule_noswallow, rule_state, rule_nosticky]
